@@ -55,7 +55,7 @@ def powNeg (p : Float) (x : Float) : Float := Float.pow x (-1.0 / p)
 /-- residuals of `SvdSpec B o`: max-abs of `U diag(s²) Uᵀ − B Bᵀ`, of `U Uᵀ − 1`, of `Uᵀ U − 1`;
 `s` non-negative and descending; and the scale `max|B Bᵀ|` -/
 def svdResiduals {d n : Nat} (B : Mat Float d n) (o : SvdOut Float d) : Json :=
-  let BBt := forceM (outer B)
+  let BBt := outer B
   let rec_ := maxAbs (entries fun i j : Fin d => (sumFin fun a => o.U i a * (o.s a * o.s a) * o.U j a) - BBt i j)
   let rows := maxAbs (entries fun i j : Fin d => (sumFin fun a => o.U i a * o.U j a) - (if i = j then 1.0 else 0.0))
   let cols := maxAbs (entries fun a b : Fin d => (sumFin fun i => o.U i a * o.U i b) - (if a = b then 1.0 else 0.0))
@@ -136,7 +136,7 @@ def ops : List Op := [
     let o ← getSvd j d
     let p ← getF j "p"
     let eps ← getF j "eps"
-    let B := forceM (fdB Float.sqrt β st G)
+    let B := (fdB Float.sqrt β st G)
     -- `fdStep` with the constant oracle `fun _ => o`
     let st' := fdStep (fun _ => o) Float.sqrt β st G
     pure (obj (stateFields st' ++ [
@@ -159,7 +159,7 @@ def ops : List Op := [
     let ⟨d, k, cfg, st, G⟩ ← dsArgs j
     let o ← getSvd j d
     let p ← getF j "p"
-    let B := forceM (dsB Float.sqrt cfg st G)
+    let B := (dsB Float.sqrt cfg st G)
     let out := dsFdUpdateRoot (fun _ => o) Float.sqrt (powNeg p) cfg st G
     pure (obj (stateFields out.st ++ [
       ("rho", floatToJson (rho k o)), ("inv", vecJson out.inverted), ("const", floatToJson out.const),
@@ -174,7 +174,7 @@ def ops : List Op := [
     let p ← getF j "p"
     let epsilon ← getF j "epsilon"
     let relative ← getBool j "relative"
-    let B := forceM (sketchyB Float.sqrt β st G)
+    let B := (sketchyB Float.sqrt β st G)
     let out := sketchyUpdateAxis (fun _ => o) Float.sqrt (powNeg p) epsilon relative β st G
     pure (obj (stateFields out.st.denote ++ [
       ("e", vecJson out.st.e), ("rho", floatToJson (relu (cutoff k o) * relu (cutoff k o))),
@@ -186,7 +186,7 @@ def ops : List Op := [
   ("oco_step", fun j => do
     let ⟨k, n, st, g⟩ ← ocoArgs j
     let o ← getSvd j n
-    let B := forceM (ocoB st g)
+    let B := (ocoB st g)
     let st' := ocoFdUpdateO Float.sqrt st o
     pure (obj (stateFields st'.denote ++ [
       ("P", matJson st'.P), ("e", vecJson st'.e), ("rho", floatToJson (rho k o)),
